@@ -68,7 +68,7 @@ def rule_check_first(ck, F):
             n += 1
             if not any(B.dominates(c, i) for c in conts):
                 ck.violation("R1", "check-before:await", sp(B, i), "an await point is reachable before the restriction check succeeded", fn=short)
-    ck.floor("R1", "I/O call sites and await points dominated by the check", n, 6)
+    ck.floor("R1", "I/O call sites and await points dominated by the check", n, 3)
     # the convenience wrapper (constructs a Client and delegates) must not do I/O of its own
     for b in F.lib.bodies:
         p = b["path"]
